@@ -312,23 +312,15 @@ func indexOf(c cond) int {
 var shapes = []string{"m", "i", "mm", "mi", "ii", "none", "mmi"}
 
 func body(c *explore.Chooser) *explore.Case {
-	nshapes := len(shapes) - 1 // mmi only at thorough
-	if tier == "thorough" {
-		nshapes = len(shapes)
-	}
+	nshapes := len(shapes) - 1 // the mmi triple (36^3 blocks) is not part of any tier: it could only ever be sampled
 	shape := shapes[c.Free(nshapes, "shape")]
 	single := len(shape) == 1
 	maxConds := 1
 	if single {
 		maxConds = 2
 	}
-	if tier == "thorough" {
-		if single {
-			maxConds = 3
-		}
-		if len(shape) == 2 {
-			maxConds = 2
-		}
+	if tier == "thorough" && single {
+		maxConds = 3 // pairs stay at one condition each: two each would be 1.3 M blocks, a time-capped sample
 	}
 	var matches, ignores []sub
 	var hcl strings.Builder
@@ -527,7 +519,7 @@ var tier string
 func main() {
 	explore.Main(&explore.Config{
 		Property: "C09", Level: "exploration",
-		Rule:        "rule{} blocks of shape {none, m, i, mm, mi, ii, mmi} whose sub-blocks are conjunctions of <=c conditions (quick: c=2 for single sub-blocks, 1 in pairs; thorough: 3 single, 2 in pairs, 1 in the mmi triple) over a 36-condition alphabet covering all nine kinds (anchoring probes, group-level labels, 7 duration operators, 3 commands, 7 state lists), loaded through the real config.Load, applied through GetChecksForEntry to a rule universe (80 rules quick / 276 thorough: kinds x names x group-level/rule-level/overriding labels x annotations x for x keep_firing_for x 2 paths) x 4 change states x 3 commands, compared with a reference evaluator of the documented meaning. distinct = distinct config text; space two-blocks: two unconditional rule{} blocks carrying the same kind of check with different parameters (10 kinds x 2 orders): both checks must be selected",
+		Rule:        "rule{} blocks of shape {none, m, i, mm, mi, ii} whose sub-blocks are conjunctions of <=c conditions (quick: c=2 for single sub-blocks, 1 in pairs; thorough: 3 for single sub-blocks, on the larger rule universe; both complete) over a 36-condition alphabet covering all nine kinds (anchoring probes, group-level labels, 7 duration operators, 3 commands, 7 state lists), loaded through the real config.Load, applied through GetChecksForEntry to a rule universe (80 rules quick / 276 thorough: kinds x names x group-level/rule-level/overriding labels x annotations x for x keep_firing_for x 2 paths) x 4 change states x 3 commands, compared with a reference evaluator of the documented meaning. distinct = distinct config text; space two-blocks: two unconditional rule{} blocks carrying the same kind of check with different parameters (10 kinds x 2 orders): both checks must be selected",
 		Assumptions: []string{"a block 'is applied' when its marker check is in GetChecksForEntry's result", "removed rules are outside (no configurable check runs on them)"},
 		Spaces: []*explore.Space{
 			{Name: "blocks", Body: body, Setup: func(t string) { tier = t; setup(t) }, Bound: func(string) int { return -1 }},
